@@ -3,6 +3,9 @@ package netsim
 import (
 	"fmt"
 	"sort"
+	"time"
+
+	"github.com/icon-project/goloop/consensus/fastsync"
 
 	"github.com/icon-project/goloop/common/errors"
 	"github.com/icon-project/goloop/module"
@@ -142,8 +145,8 @@ func (ph *simPH) enqueue(m outMsg) error {
 	m.gid = goid()
 	s := inc.s
 	s.mu.Lock()
-	if ms := s.mutexes[inc.mtx]; ms != nil && ms.held && ms.holder == m.gid {
-		m.gid = 0 // sent from inside the node's consensus critical section: arrival order is already decided by the driver
+	if s.holdsRegisteredMutex(inc, m.gid) {
+		m.gid = 0 // sent from inside one of the node's scheduled critical sections: arrival order is already decided by the driver
 	}
 	inc.node.sendSeq++
 	m.n = inc.node.sendSeq
@@ -162,7 +165,20 @@ func (ph *simPH) Multicast(pi module.ProtocolInfo, b []byte, role module.Role) e
 }
 
 func (ph *simPH) Unicast(pi module.ProtocolInfo, b []byte, id module.PeerID) error {
-	return ph.enqueue(outMsg{kind: sendUnicast, sub: pi, data: b, dst: id})
+	err := ph.enqueue(outMsg{kind: sendUnicast, sub: pi, data: b, dst: id})
+	if ph.proto == module.ProtoFastSync && pi == fastsync.ProtoBlockRequest {
+		// handing a block request to the network takes a little (distinct) time: the
+		// fast-sync client arms one timeout per request, and requests issued in one
+		// critical section would otherwise expire at the same simulated instant, where
+		// the order in which the runtime starts the timer goroutines is not repeatable
+		inc := ph.nm.inc
+		inc.s.mu.Lock()
+		inc.node.fsSendSeq++
+		k := inc.node.fsSendSeq
+		inc.s.mu.Unlock()
+		time.Sleep(time.Duration(1+k%997) * time.Microsecond)
+	}
+	return err
 }
 
 func (ph *simPH) GetPeers() []module.PeerID { return ph.nm.inc.s.peersOf(ph.nm.inc.node) }
